@@ -367,5 +367,6 @@ def run(ck):
                       "Broadcast; Signal's choice of waiter is part of the schedule): DFS with state pruning over the interleavings of the "
                       "systematic configurations (complete in the thorough tier, the first 20-80 DFS paths per configuration in the quick tier) (semaphore: 2 threads x <=2 ops, 3 x 1, initial value 0/1; notify list: 2 x <=2, 3 x 1, counters "
                       "starting at 0 and at 2^32-1) + random schedules of random configurations (2-4 threads, 1-3 ops, counters near 2^32); "
-                      "each executed schedule is one case for the model and for the property oracles")
+                      "+ ALL interleavings at operation granularity (run a thread until its call returns or blocks; both Signal choices) of the back-to-back configurations [Acq][Acq][Rel;Rel], [Acq][Acq][Rel][Rel], [Acq;Rel]x3, [Wait][Wait][One;One], [Wait][Wait][One][One], [Wait]x3[All], [Wait][Wait][One;All] at 2^32-1; "
+                      "each executed schedule is one case for the model and for the property oracles. T2: IR of every sync/atomic function and typed method vs the Coq table atomic_lowering")
     return ck.finish()
